@@ -31,6 +31,7 @@ from __future__ import absolute_import  # to enable import io from stdlib
 import ast
 from binascii import unhexlify
 import calendar
+import datetime
 from collections import namedtuple
 from decimal import Decimal
 import io
@@ -642,8 +643,8 @@ class DateType(_CassandraType):
 
     @staticmethod
     def deserialize(byts, protocol_version):
-        timestamp = int64_unpack(byts) / 1000.0
-        return util.datetime_from_timestamp(timestamp)
+        # integer arithmetic: a double cannot hold seconds with millisecond precision far from 1970
+        return util.DATETIME_EPOC + datetime.timedelta(milliseconds=int64_unpack(byts))
 
     @staticmethod
     def serialize(v, protocol_version):
